@@ -708,6 +708,7 @@ func checkC07(c *core.Ctx) error {
 	checkArmijoBeforeAcceptance(c)
 	checkWolfeTerms(c)
 	checkStepMeasure(c)
+	checkLineSearchConstraints(c)
 	nfun := 0
 	for _, p := range c.LibPkgs() {
 		if !strings.Contains(p.PkgPath, "/algorithm/") {
